@@ -228,6 +228,18 @@ func traceRun(c *an.Ctx, run *ssa.Function, task *ssa.Parameter, row runRow) []r
 				}
 			}
 		}
+		if u, ok := v.(*ssa.UnOp); ok && u.Op == token.MUL {
+			if fa, ok := u.X.(*ssa.FieldAddr); ok && an.TypeIs(fa.X.Type(), "pkg/task", "Task") {
+				// the task's result flags hold what the events of this path wrote (C07.2 checks that
+				// nothing outside TaskRunner.Run writes them)
+				switch an.AccessPath(fa).LastField() {
+				case "Errored":
+					return an.ABool(has(st.Effects(), "errored")), true
+				case "Skipped":
+					return an.ABool(has(st.Effects(), "skip")), true
+				}
+			}
+		}
 		if u, ok := v.(*ssa.UnOp); ok && u.Op == token.MUL && row.af >= 0 {
 			if fa, ok := u.X.(*ssa.FieldAddr); ok && an.TypeIs(fa.X.Type(), "pkg/task", "Task") && an.AccessPath(fa).LastField() == "AllowFailure" {
 				return an.ABool(row.af == 1), true
@@ -486,6 +498,28 @@ func checkRunTable(c *an.Ctx, rule string, want map[string]bool) {
 				}
 				if pth.ret.K != an.ANonNil {
 					note("Run does not return a non-nil error when %s fails", row.fail)
+				}
+			}
+			if want["reset"] {
+				failedOrSkipped := has(ev, "errored") || has(ev, "skip")
+				created := has(ev, "output.new") && row.fail != "output.new"
+				if created {
+					if has(ev, "exitcode:=0") == failedOrSkipped {
+						if failedOrSkipped {
+							note("ExitCode is reset to 0 although the task was marked errored or skipped (events %v)", ev)
+						} else {
+							note("ExitCode is not reset to 0 for a task that is neither errored nor skipped (events %v)", ev)
+						}
+					}
+				}
+				for i, e := range ev {
+					if e == "exitcode:=0" {
+						for _, later := range ev[i+1:] {
+							if r, _ := rankOf(later); r < 10 {
+								note("ExitCode is reset before %s ran", later)
+							}
+						}
+					}
 				}
 			}
 			if want["store"] {
